@@ -62,6 +62,23 @@ Theorem C18_kept_monitor : forall t o t', Inv t -> op_wf o -> step t o = Some t'
 Proof. exact pol_kept_holds. Qed.
 Print Assumptions C18_kept_monitor.
 
+(* (2, converse for liveness) a failed revalidation answer for an attached in-flight request divides the entry's
+       credit by three (and puts it on the fast list); when that is 0 the entry is gone.  That the leaver is then
+       succeeded by a replacement iff one exists is C18_leaver_is_succeeded / pol_succ_b (C18_monitors). *)
+Theorem C18_failed_check_divides_credit : forall t id nr pick t' e aid,
+  Inv t -> step t (RevalResp id false nr pick) = Some t' ->
+  find (fun a : N * bool => fst a =? id) (active (gl t)) = Some (aid, true) ->
+  In e (all_ents t) -> eid e = id ->
+  (checks e / 3 = 0 -> ~ In id (entry_ids t')) /\
+  (checks e / 3 <> 0 -> exists e', In e' (all_ents t') /\ eid e' = id /\ checks e' = checks e / 3 /\ nd e' = nd e /\ rl e' = Some Fast).
+Proof. exact failed_check_divides_credit. Qed.
+Print Assumptions C18_failed_check_divides_credit.
+
+Theorem C18_failed_check_monitors : forall t o t', Inv t -> step t o = Some t' ->
+  pol_failed_credit_b t o t' = true /\ pol_failed_gone_b t o t' = true.
+Proof. exact pol_failed_holds. Qed.
+Print Assumptions C18_failed_check_monitors.
+
 (* the failure counter in cause_b is the number of CONSECUTIVE failed track requests of (id, ip) since the last
    successful one (consec), a function of the operation history alone (hist_fails): no other operation touches it,
    and it survives removal and re-adding of the node, as the node database does *)
